@@ -147,14 +147,14 @@ impl LineInfo {
 ///     redirect_from: Some(("<", "one-file")),
 /// }
 ///
-#[derive(Debug)]
+#[derive(Clone, Debug)]
 pub struct Command {
     pub tokens: Tokens,
     pub redirects_to: Vec<Redirection>,
     pub redirect_from: Option<Token>,
 }
 
-#[derive(Debug)]
+#[derive(Clone, Debug)]
 pub struct CommandLine {
     pub line: String,
     pub commands: Vec<Command>,
@@ -412,6 +412,16 @@ impl CommandLine {
 
     pub fn is_single_and_builtin(&self) -> bool {
         self.commands.len() == 1 && self.commands[0].is_builtin()
+    }
+
+    /// A builtin that is alone on its line runs in the shell itself --
+    /// except when its output is captured (`$(...)`, a subshell) AND it
+    /// carries redirections: then it takes the forked-child path that
+    /// pipelines use, where the capture pipes and the redirections are
+    /// applied to descriptors 1 and 2 like for any other command.
+    pub fn runs_in_shell(&self, capture: bool) -> bool {
+        self.is_single_and_builtin()
+            && !(capture && !self.commands[0].redirects_to.is_empty())
     }
 }
 
